@@ -220,7 +220,7 @@ class Enumerated(Family):
     inside the evaluation.  An explicit single evaluation is the case form {"x": {...}}."""
     name = "enumerated"
     theorems = tuple(f"C03_{o}_{k}" for o in ["add", "sub", "mul", "div", "and", "or", "xor", "eq", "ne", "lt", "le", "gt", "ge"]
-                     for k in KINDS) + ("C03_result_wf_sparse",)
+                     for k in KINDS) + tuple(f"C03_result_wf_{o}" for o in ["add", "sub", "mul", "div", "and", "or", "xor", "eq", "ne", "lt", "le", "gt", "ge"])
 
     def __init__(self):
         self.failing = {}
@@ -425,7 +425,7 @@ ELEMFUNS = {
 class Unary(Family):
     """- + logical_not ones elemfun, c*S, c/S, S*ktensor."""
     name = "unary_and_reflected"
-    theorems = ("C03_neg", "C03_pos", "C03_not", "C03_ones", "C03_elemfun", "C03_rmul", "C03_rdiv", "C03_mul_kruskal_partial")
+    theorems = ("C03_neg", "C03_pos", "C03_not", "C03_ones", "C03_elemfun", "C03_mul_scalar", "C03_rdiv")
 
     def gen(self, rng, tier):
         out = []
@@ -507,7 +507,7 @@ class Unary(Family):
 class Lookups(Family):
     """extract, mask, from_aggregator."""
     name = "extract_mask_aggregator"
-    theorems = ("C03_extract", "C03_mask", "C06_aggregator_wf")
+    theorems = ("C03_extract", "C03_extract_rejects", "C03_mask", "C03_mask_rejects", "C06_aggregator_wf")
 
     def gen(self, rng, tier):
         out = []
@@ -612,7 +612,7 @@ class Lookups(Family):
 class Mismatch(Family):
     """operands of different shapes are refused by the sparse-sparse operations."""
     name = "shape_mismatch"
-    theorems = ("C03_shape_mismatch_rejected",)
+    theorems = ()
 
     def gen(self, rng, tier):
         out = []
